@@ -12,6 +12,8 @@ use std::path::PathBuf;
 use std::sync::atomic::{AtomicBool, AtomicUsize, Ordering};
 use std::sync::{Arc, Mutex};
 
+static SWEEP: AtomicUsize = AtomicUsize::new(0);
+
 fn rand_tx(rng: &mut SmallRng, u: &Universe, maxops: usize, invalid_pct: u32, unique: Option<&AtomicUsize>) -> (J, Vec<(u8, Operation<Vec<u8>, Vec<u8>>)>) {
     let n = 1 + rng.gen::<usize>() % maxops;
     let mut jops = Vec::new();
@@ -38,6 +40,9 @@ fn rand_tx(rng: &mut SmallRng, u: &Universe, maxops: usize, invalid_pct: u32, un
                 None => {
                     if spec.value_from_key() {
                         1
+                    } else if u.size_table.is_some() {
+                        // boundary mode: sweep through every value id (= every boundary length)
+                        1 + (SWEEP.fetch_add(1, Ordering::SeqCst) % u.nvals) as i64
                     } else {
                         1 + (rng.gen::<usize>() % u.nvals) as i64
                     }
@@ -63,6 +68,31 @@ fn rand_tx(rng: &mut SmallRng, u: &Universe, maxops: usize, invalid_pct: u32, un
 fn obs_event(db: &Db, u: &Universe) -> J {
     json!({"e": "Obs", "obs": project(db, u)})
 }
+
+/// raw structure of every hash / btree column (evaluated by the trace spec when the model says
+/// the pipeline is drained)
+fn dump_events(db: &Db, u: &Universe, rec: &Recorder) {
+    if !DUMPS.load(Ordering::Relaxed) {
+        return
+    }
+    // at most one dump per 400 recorded events (dumps are large)
+    let now = rec.len();
+    let last = LAST_DUMP.load(Ordering::Relaxed);
+    if last != 0 && now < last + 400 {
+        return
+    }
+    LAST_DUMP.store(now.max(1), Ordering::Relaxed);
+    for c in 0..u.cols.len() {
+        if u.cols[c].is_multitree() {
+            continue
+        }
+        if let Ok(Some(ev)) = catch(|| crate::dump::dump_event(db, u, c)) {
+            rec.push(ev);
+        }
+    }
+}
+static DUMPS: AtomicBool = AtomicBool::new(false);
+static LAST_DUMP: AtomicUsize = AtomicUsize::new(0);
 
 fn counts_events(db: &Db, u: &Universe, rec: &Recorder) {
     for c in 0..u.cols.len() {
@@ -97,7 +127,12 @@ pub fn cmd_record(args: &HashMap<String, String>) -> i32 {
     let seed: u64 = args.get("seed").map(|s| s.parse().unwrap()).unwrap_or(1);
     let crash_pct: u32 = args.get("crash").map(|s| s.parse().unwrap()).unwrap_or(0);
     let small = args.contains_key("small");
-    let u = Universe::new(cols, nkeys, nvals, seed, small);
+    DUMPS.store(args.contains_key("dumps"), Ordering::Relaxed);
+    let u = if args.contains_key("boundary") {
+        Universe::with_boundary_sizes(cols, nkeys, seed)
+    } else {
+        Universe::new(cols, nkeys, nvals, seed, small)
+    };
     let root = scratch_root();
     let mut dir = fresh_dir(&root, "rec");
     let rec = Recorder::install();
@@ -192,7 +227,10 @@ pub fn cmd_record(args: &HashMap<String, String>) -> i32 {
                 catch(|| d.verif_enact_one()).map_err(|p| format!("panic: {p}"))?.map_err(|e| format!("enact: {e}"))?;
             } else if r < 86 {
                 catch(|| d.clean_logs()).map_err(|p| format!("panic: {p}"))?.map_err(|e| format!("clean_logs: {e}"))?;
-            } else if r < 90 {
+                if d.verif_pipeline_sizes().0 == 0 {
+                    dump_events(d, &u, &rec);
+                }
+            } else if r < 90 || (r < 93 && u.cols.iter().any(|c| c.collide)) {
                 catch(|| d.process_reindex()).map_err(|p| format!("panic: {p}"))?.map_err(|e| format!("process_reindex: {e}"))?;
             } else if r < 95 {
                 // clean close and reopen
@@ -205,6 +243,7 @@ pub fn cmd_record(args: &HashMap<String, String>) -> i32 {
                     .map_err(|e| format!("reopen: {e}"))?;
                 rec.push(json!({"e": "Reopened"}));
                 counts_events(&nd, &u, &rec);
+                dump_events(&nd, &u, &rec);
                 db = Some(nd);
             } else if r < 95 + crash_pct.min(5) {
                 // crash: at this boundary, or at the j-th hook event of a pipeline step
@@ -261,6 +300,7 @@ pub fn cmd_record(args: &HashMap<String, String>) -> i32 {
                     .map(|c| project_counts(&nd, &u, c).map(|v| json!(v)).unwrap_or(json!([])))
                     .collect();
                 rec.push(json!({"e": "Recovered", "obs": project(&nd, &u), "counts": counts}));
+                dump_events(&nd, &u, &rec);
                 db = Some(nd);
             }
             Ok(())
@@ -281,6 +321,75 @@ pub fn cmd_record(args: &HashMap<String, String>) -> i32 {
         rec.push(json!({"e": "CurClose"}));
     }
     drop(iter);
+    // steady workload (C14): the same insert-all / remove-all round repeated; the fill marks of the
+    // value tables after each round are reported and must not keep growing
+    if problems.is_empty() && args.contains_key("steady") {
+        let rounds: usize = args["steady"].parse().unwrap_or(6);
+        let d = db.as_ref().unwrap();
+        let mut marks: Vec<Vec<u64>> = Vec::new();
+        let drain = |d: &Db| -> Result<(), String> {
+            for _ in 0..8 {
+                d.process_commits().map_err(|e| format!("{e}"))?;
+            }
+            d.flush_logs().map_err(|e| format!("{e}"))?;
+            d.enact_logs().map_err(|e| format!("{e}"))?;
+            d.clean_logs().map_err(|e| format!("{e}"))?;
+            Ok(())
+        };
+        'rounds: for _round in 0..rounds {
+            for phase in 0..2 {
+                for c in 0..u.cols.len() {
+                    if u.cols[c].is_multitree() {
+                        continue
+                    }
+                    let mut jops = Vec::new();
+                    let mut ops = Vec::new();
+                    for k in 1..=u.nkeys {
+                        let v = if u.cols[c].value_from_key() { 1 } else { 1 + (k % u.nvals.max(1)) as i64 };
+                        if phase == 0 {
+                            jops.push(json!({"c": c + 1, "k": k, "t": "set", "v": v}));
+                            ops.push((c as u8, Operation::Set(u.key(c, k).clone(), u.val(c, k, v))));
+                        } else {
+                            // (rc columns: as many dereferences as it takes to drop the key)
+                            jops.push(json!({"c": c + 1, "k": k, "t": "del", "v": 0}));
+                            ops.push((c as u8, Operation::Dereference(u.key(c, k).clone())));
+                        }
+                    }
+                    // transactions of at most 4 operations
+                    let mut ops = ops.into_iter();
+                    for j in jops.chunks(4) {
+                        let o: Vec<(u8, Operation<Vec<u8>, Vec<u8>>)> = ops.by_ref().take(j.len()).collect();
+                        if let Err(e) = commit(d, &rec, J::Array(j.to_vec()), o) {
+                            problems.push(e);
+                            break 'rounds
+                        }
+                    }
+                }
+                if let Err(e) = drain(d) {
+                    problems.push(e);
+                    break 'rounds
+                }
+            }
+            // rc columns may still hold keys (counts above one): that is steady too
+            let mut row = Vec::new();
+            for c in 0..u.cols.len() {
+                // (btree nodes change size with the shape of the tree and keep touching new size
+                // tiers; for btree columns the per-round structural dump below is the leak check)
+                if u.cols[c].is_multitree() || u.cols[c].is_btree() {
+                    continue
+                }
+                if let Ok(dump) = d.verif_dump(c as u8) {
+                    for t in dump.tables.iter().filter(|t| t.exists) {
+                        row.push(t.file_filled);
+                    }
+                }
+            }
+            marks.push(row);
+            dump_events(d, &u, &rec);
+        }
+        rec.push(json!({"e": "Steady", "marks": marks}));
+        rec.push(obs_event(d, &u));
+    }
     // final clean close + reopen
     if problems.is_empty() {
         let old = db.take();
@@ -303,7 +412,7 @@ pub fn cmd_record(args: &HashMap<String, String>) -> i32 {
     Recorder::uninstall();
     let events = rec.take();
     write_trace(&args["out"], &events);
-    let summary = json!({"events": events.len(), "crashes": ncrash, "restarts": nrestart, "problems": problems, "universe": u.describe(), "init_rid": init_rid, "init_cid": init_cid});
+    let summary = json!({"events": events.len(), "crashes": ncrash, "restarts": nrestart, "problems": problems, "universe": u.describe(), "init_rid": init_rid, "init_cid": init_cid, "nvals": u.nvals, "values_swept": SWEEP.load(Ordering::SeqCst)});
     println!("{}", summary);
     let _ = std::fs::remove_dir_all(&root);
     if problems.is_empty() {
